@@ -337,12 +337,97 @@ func c11ReadClass(timedOut bool) string {
 	return "ok"
 }
 
+// c11SlowRC is an underlying stream whose Close blocks until released: it holds the window
+// between "decided to close" and "closed" open, so that the other closing path arrives
+// inside it (fault-injecting ReadCloser; no hook in the code under test).
+type c11SlowRC struct {
+	entered chan struct{} // one token per Close call that has started
+	release chan struct{} // closed to let Close calls finish
+	closes  atomic.Int64
+}
+
+func (c *c11SlowRC) Read(p []byte) (int, error) { return 0, io.EOF }
+func (c *c11SlowRC) Close() error {
+	c.closes.Add(1)
+	c.entered <- struct{}{}
+	<-c.release
+	return nil
+}
+
+// c11Overlap: one closing path (idle callback or consumer Close) is inside the underlying
+// Close when the other one arrives. Exactly one release must result.
+func c11Overlap(t *testing.T, rep *vfReport, timerFirst bool) (ops, out []string) {
+	s := c11NewStore(t)
+	defer s.Close()
+	ops = []string{"reset", "aux+", "open 3600000000000 1"}
+	out = []string{"ok", "ok", "ok 0"}
+	if err := s.mrsw.BeginRead(); err != nil { // another reader, so that a double release is visible in the count instead of a panic
+		t.Fatalf("aux reader: %v", err)
+	}
+	if err := s.mrsw.BeginRead(); err != nil { // what Store.Open does before it builds the streamer
+		t.Fatalf("stream reader: %v", err)
+	}
+	rc := &c11SlowRC{entered: make(chan struct{}, 8), release: make(chan struct{})}
+	l := NewLockingStreamer(rc, s, time.Hour)
+	first, second := make(chan struct{}), make(chan struct{})
+	run := func(idle bool, done chan struct{}) {
+		defer close(done)
+		if idle {
+			l.lastRead.Store(time.Now().Add(-2 * time.Hour).UnixNano()) // idle for longer than the timeout
+			l.checkIdle()
+		} else {
+			l.Close()
+		}
+	}
+	go run(timerFirst, first)
+	select {
+	case <-rc.entered: // the first path is now inside the underlying Close
+	case <-time.After(20 * time.Second):
+		t.Fatalf("first closing path never reached the underlying Close")
+	}
+	go run(!timerFirst, second)
+	// give the second path time to either block (correct) or run through to the underlying Close (wrong)
+	select {
+	case <-rc.entered:
+	case <-time.After(30 * time.Millisecond):
+	}
+	close(rc.release)
+	<-first
+	<-second
+	nr := c11NR(s)
+	replay := map[string]interface{}{"idle_callback_first": timerFirst, "underlying_close_calls": rc.closes.Load(), "reader_count_after": nr, "reader_count_expected": 1}
+	if rc.closes.Load() != 1 {
+		rep.Fail("stream-underlying-closed-twice", fmt.Sprintf("Close and the idle callback overlapped (idle callback first: %v): the underlying stream was closed %d times", timerFirst, rc.closes.Load()), replay)
+	}
+	if nr != 1 {
+		rep.Fail("stream-released-its-hold-twice", fmt.Sprintf("Close and the idle callback overlapped (idle callback first: %v): reader count is %d with one other reader still inside (expected 1)", timerFirst, nr), replay)
+	}
+	a, b := "idle 0 7300000000000", "close 0"
+	ra, rb := "forced", "noop"
+	if !timerFirst {
+		a, b = "close 0", "idle 0 7300000000000"
+		ra, rb = "released", "noop"
+	}
+	ops = append(ops, "read 0 2 1", a, b, "state")
+	out = append(out, "ok", ra, rb, fmt.Sprintf("%d 0 0", nr))
+	if nr >= 1 {
+		s.mrsw.EndRead()
+	}
+	return
+}
+
 func TestVerifC11(t *testing.T) {
 	rep := vfNewReport("C11", "A: sequential op sequences (30-120 ops) on a real snapshot store with a full and an incremental snapshot: open (idle timeout 0 or 1 h), read, Close, repeated Close, idle callback with expired / fresh last-read time, short readers, failing Open, Store.Reap, held write lock; non-trivial when a forced close, a repeated Close and a refused Reap all occurred; B: 3-6 reader goroutines x 4-10 streams each (4 ms idle timeout, stalls, double and concurrent Close) against a reaper adding 3 incrementals and reaping through Reap() and the blocking reapLoop; C: real 25-55 ms idle timers with one read before the stall")
 	// if the process dies (e.g. the \"reader count went negative\" panic in a timer goroutine) this report stays
-	rep.Fail("process-crashed-during-run", "the test process ended before the run finished (panic in a non-test goroutine?)", nil)
-	rep.Write()
-	rep.OracleFailures = nil
+	// checkpoint: what has been found so far plus the crash marker is on disk at all times; the
+	// final Write (deferred) replaces it with the report without the marker
+	checkpoint := func() {
+		n := len(rep.OracleFailures)
+		rep.OracleFailures = append(rep.OracleFailures, vfOracleFailure{"process-crashed-during-run", "the test process ended before the run finished (panic in a non-test goroutine, e.g. MultiRSW's \"reader count went negative\" out of a double release?)", nil})
+		rep.Write()
+		rep.OracleFailures = rep.OracleFailures[:n]
+	}
+	checkpoint()
 	defer rep.Write()
 	defer func() {
 		// a panic on the test goroutine (e.g. MultiRSW's "reader count went negative" out of a
@@ -373,9 +458,19 @@ func TestVerifC11(t *testing.T) {
 		}
 	}
 
+	// ---- overlap of the two closing paths (slow underlying Close) ----------------------
+	for i := 0; i < vfScale(4, 40); i++ {
+		ops, out := c11Overlap(t, rep, i%2 == 0)
+		allOps = append(allOps, ops)
+		allImpl = append(allImpl, out)
+		rep.Case(fmt.Sprintf("overlap:%d", i%2), i < 2)
+		rep.Count("overlapping-close-and-idle-callback")
+	}
+
 	// ---- B -------------------------------------------------------------------------
 	nB := vfScale(6, 400)
 	for run := 0; run < nB; run++ {
+		checkpoint()
 		s := c11NewStore(t)
 		s.SetReadTimeout(4 * time.Millisecond)
 		s.SetReapThreshold(2)
